@@ -467,3 +467,12 @@ Proof.
   - rewrite andb_true_iff, !memN_In. split; [intros [H1 H2]; eauto | intros (a' & Heq & H1 & H2); injection Heq as <-; auto].
   - split; [discriminate | intros (? & H & _); discriminate].
 Qed.
+
+(* Before the Altair fork (in particular with the fork epoch at FAR_FUTURE_EPOCH = 2^64-1, outside
+   [in_range]) the call does nothing at all: no request, no job, no subscription. *)
+Lemma before_fork_nothing : forall p i,
+  epoch_of_slot p (si_cur i) < fork p -> schedule p i = nothing None.
+Proof.
+  intros p i H. unfold schedule. destruct (si_indices i); [reflexivity|].
+  destruct (N.ltb_spec (epoch_of_slot p (si_cur i)) (fork p)); [reflexivity | lia].
+Qed.
